@@ -8,6 +8,7 @@ import CliUtils.Drv.C14
 import CliUtils.Drv.Sys
 import CliUtils.Drv.Status
 import CliUtils.Drv.C16
+import CliUtils.Drv.C18
 /-
   Line-protocol driver.  stdin: one JSON object per line  {"d": domain, "i": input, "o": implementation output}
   stdout: one line per case that needs attention, then one summary line.
@@ -43,7 +44,9 @@ def handlers : List (String × Handler) := [
   ("kubectl", KS.handleKubectl),
   ("funnel", C16.handleFunnel),
   ("watcher", C16.handleWatcher),
-  ("watcher-fatal", C16.handleFatal)
+  ("watcher-fatal", C16.handleFatal),
+  ("jsonpath", C18.handleJsonpath),
+  ("mutate", C18.handleMutate)
 ]
 
 structure Stats where
